@@ -754,6 +754,7 @@ class DrillholeClipNative(Contract):
     variant = "whole-hole-by-collar"
     symbolic = False
     has_native = True
+    native_shards = 4
     props = ("C13",)
     bounded_scope = "plain and grouped (concatenated) drillholes x {no data, a depth log, a depth log and an interval table} x 4 boxes (around the collar, touching it, away from it but over the trace, far away) x both inverse values x 2-D and 3-D boxes (exhaustive)"
 
